@@ -81,6 +81,11 @@ def c07_judge(o_bits, delay_bits, disp_bits, phc, bound):
     """README formula on the wire values, exact: E = (|offset| + dispersion + delay/2) * 1e9 + phc."""
     o, dl, dp = decode_float(o_bits), decode_float(delay_bits), decode_float(disp_bits)
     e = (abs(o) + dp + dl / 2) * 10 ** 9 + phc
+    if e > 2 ** 63 - 1 and bound >= 0:
+        # the sum has no representation in the record's signed 64-bit field: the largest value it can hold is the only one not below every representable candidate
+        if bound != 2 ** 63 - 1:
+            return "bound-too-small", "published bound %d ns although |offset| + dispersion + delay/2 + phc = %s ns exceeds the field (offset %s s, dispersion %s s, delay %s s, phc %d): anything but the largest representable value under-states it further" % (bound, float(e), float(o), float(dp), float(dl), phc)
+        return None
     if bound < 0:
         return "negative-bound", "published bound %d ns is negative (offset %s s, dispersion %s s, delay %s s, phc %d)" % (bound, float(o), float(dp), float(dl), phc)
     if Fraction(bound) < e * (1 - Fraction(1, 2 ** 50)):
